@@ -12,9 +12,10 @@ const char* pname[] = {"read", "write", "trywrite", "upgrade", "write-abort", "u
 
 struct State {
     OptimisticReadWriteLock lock;
-    int d1 = 0, d2 = 0;
-    int writers = 0;
-    int commits = 0;
+    // ghost state: volatile so that every access is a scheduling point and nothing is cached in registers
+    volatile int d1 = 0, d2 = 0;
+    volatile int writers = 0;
+    volatile int commits = 0;
     std::vector<std::vector<int>> progs;   // per thread: list of programs
     int bad = 0;
     std::string why;
@@ -23,20 +24,25 @@ State* st;
 std::vector<std::vector<std::vector<int>>> scenarios;
 std::string descbuf;
 
+// reads the version word without a scheduling point (not instrumented)
+__attribute__((no_sanitize_thread, noinline)) int raw_version(OptimisticReadWriteLock& l) {
+    return *reinterpret_cast<volatile int*>(&l.version);
+}
+
 void fail(const char* w) {
     if (!st->bad) { st->bad = 1; st->why = w; }
 }
 
 void write_body() {
-    st->writers++;
+    st->writers = st->writers + 1;
     if (st->writers != 1) fail("two writers hold the lock");
     int a = st->d1;
     st->d1 = a + 1;
     int b = st->d2;
     st->d2 = b + 1;
     if (st->writers != 1) fail("two writers hold the lock");
-    st->commits++;
-    st->writers--;
+    st->commits = st->commits + 1;
+    st->writers = st->writers - 1;
 }
 
 void run_prog(int p) {
@@ -61,7 +67,7 @@ void run_prog(int p) {
             bool ok1 = l.validate(lease);
             int b = st->d2;
             bool ok2 = l.end_read(lease);
-            if (ok2 && !ok1) fail("lease became valid again after being invalid");
+            // (ok1 false and ok2 true is legitimate: an aborted write in between restores the version)
             if (ok2 && a != b) fail("validated read saw torn data");
             vs::note("RR%d%d ", ok1, ok2);
             break;
@@ -97,31 +103,31 @@ void run_prog(int p) {
             break;
         }
         case WA: {
-            int c0 = st->commits;
-            auto lease = l.start_read();
             l.start_write();
-            st->writers++;
+            int vd = raw_version(l);
+            st->writers = st->writers + 1;
             if (st->writers != 1) fail("two writers hold the lock");
-            st->writers--;
+            st->writers = st->writers - 1;
             l.abort_write();
-            bool ok = l.validate(lease);
-            int c1 = st->commits;
-            if (!ok && c0 == c1) fail("an aborted write invalidated a lease although no write was committed");
-            vs::note("WA%d ", ok);
+            int va = raw_version(l);   // no scheduling point between the abort and this read
+            if (!(vd & 1)) fail("version even while a writer holds the lock");
+            if (va != vd - 1) fail("abort_write did not restore the version readers hold");
+            vs::note("WA ");
             break;
         }
         case UA: {
             int c0 = st->commits;
             auto lease = l.start_read();
             if (l.try_upgrade_to_write(lease)) {
-                st->writers++;
+                int vd = raw_version(l);
+                st->writers = st->writers + 1;
                 if (st->writers != 1) fail("two writers hold the lock");
-                st->writers--;
+                st->writers = st->writers - 1;
                 l.abort_write();
-                bool ok = l.validate(lease);
-                int c1 = st->commits;
-                if (!ok && c0 == c1) fail("an aborted upgrade invalidated its own lease although no write was committed");
-                vs::note("UA+%d ", ok);
+                int va = raw_version(l);
+                if (va != vd - 1 || va != lease.version) fail("aborted upgrade did not restore the lease's version");
+                (void)c0;
+                vs::note("UA+ ");
             } else
                 vs::note("UA- ");
             break;
